@@ -1555,6 +1555,11 @@ evhttp_connection_cb_cleanup(struct evhttp_connection *evcon)
 		return;
 	}
 
+	/* We are giving up: no retry is pending any more, so requests made
+	 * from now on (also from the callbacks below) have to start a new
+	 * connection attempt themselves instead of waiting for retry_ev. */
+	evcon->retry_cnt = 0;
+
 	/*
 	 * User callback can do evhttp_make_request() on the same
 	 * evcon so new request will be added to evcon->requests.  To
